@@ -10,7 +10,7 @@ from asyncssh.misc import ProtocolError
 from asyncssh.packet import SSHPacket, UInt32, String, Boolean
 
 from vf.core import Ob, R, B
-from vf.rt import assume, pick, conc
+from vf.rt import assume, pick, conc, cb, notrace
 from vf.stubs import MiniLoop, NullLogger
 from props.chanlib import mkchan
 
@@ -19,7 +19,8 @@ ASSUMPTIONS = [
     'arrivals, the read size, EOF / connection loss and their position; regular expressions therefore run on concrete bytes',
     'separator sets contain no separator that is a proper substring of another (for those the first match is inherently chunking dependent)',
     'the channel window is larger than the data (pausing at the buffer limit is C08)',
-    'process.py redirections (files, pipes, sockets, other processes) and SSHCompletedProcess collection are NOT covered: I/O-bound glue outside the family',
+    'of process.py only the redirection helper classes for files, async files and asyncio streams are driven (with stand-in targets); pipes, sockets, '
+    'process-to-process redirection and SSHCompletedProcess collection via asyncio.gather are NOT covered',
 ]
 
 DATA = b'aENDcdzEND\nf'
@@ -306,6 +307,197 @@ def exit_with_output(k0: int, k1: int, k2: int, k3: int, status: int) -> bool:
         and chan.get_returncode() == (status & 0xff)
 
 
+# ---------------------------------------------------------------- process.py redirection writers / readers
+
+import importlib
+PR = importlib.import_module('asyncssh.process')
+
+
+class _Proc:
+    """SSHProcess stand-in for the redirection helpers"""
+
+    def __init__(self, loop):
+        self.loop = loop
+        self.log = []
+        self.cleanup = []
+        outer = self
+
+        class Conn:
+            def create_task(self, coro, *a):
+                return loop.create_task(coro)
+
+        class Chan:
+            def get_connection(self):
+                return Conn()
+
+        self.channel = Chan()
+
+    def feed_data(self, data, datatype):
+        self.log.append(('data', data))
+
+    def feed_eof(self, datatype):
+        self.log.append(('eof',))
+
+    def feed_close(self, datatype):
+        self.log.append(('close',))
+
+    def pause_feeding(self, datatype):
+        self.log.append(('pause',))
+
+    def resume_feeding(self, datatype):
+        self.log.append(('resume',))
+
+    def add_cleanup_task(self, coro):
+        self.cleanup.append(self.loop.create_task(coro))
+
+
+class _AFile:
+    """aiofiles-style async file"""
+
+    def __init__(self, log, content=b''):
+        self.log, self.content, self.pos = log, content, 0
+
+    async def write(self, data):
+        self.log.append(('w', bytes(data)))
+        return len(data)
+
+    async def read(self, n):
+        d = self.content[self.pos:self.pos + n]
+        self.pos += len(d)
+        return d
+
+    async def close(self):
+        self.log.append(('close',))
+
+
+class _SFile:
+    def __init__(self, log, content=b''):
+        self.log, self.content, self.pos = log, content, 0
+
+    def write(self, data):
+        self.log.append(('w', bytes(data)))
+
+    def read(self, n):
+        d = self.content[self.pos:self.pos + n]
+        self.pos += len(d)
+        return d
+
+    def close(self):
+        self.log.append(('close',))
+
+
+class _SW:
+    """asyncio.StreamWriter stand-in"""
+
+    def __init__(self, log):
+        self.log = log
+
+    def write(self, data):
+        self.log.append(('w', bytes(data)))
+
+    async def drain(self):
+        return None
+
+    def write_eof(self):
+        self.log.append(('close',))
+
+
+WCHUNKS = ['ab', '', 'c', '\u00e9x']
+
+
+def redirect_writers(kind: int, text: bool, n: int, c0: int, c1: int, c2: int, r0: bool, r1: bool, eof: bool) -> bool:
+    """stdout/stderr redirection targets (file, aiofiles-style async file,
+    asyncio stream): for any sequence of up to three chunks - including empty
+    ones, which a text decoder produces for a packet holding only part of a
+    character - the target receives exactly the bytes in order, is closed /
+    EOF'ed exactly once after the last byte, and the clean-up the process waits
+    for completes."""
+    from vf.stubs import AsyncioShim
+    kind = conc(kind, 0, 2)
+    text, r0, r1, eof = cb(text), cb(r0), cb(r1), cb(eof)
+    n = conc(n, 0, 3)
+    chunks = [pick(WCHUNKS, c) for c in (c0, c1, c2)][:n]
+    with notrace():
+        loop = MiniLoop()
+        saved = PR.asyncio
+        PR.asyncio = AsyncioShim(loop)
+        try:
+            proc = _Proc(loop)
+            log = []
+            enc = 'utf-8' if text else None
+            data = chunks if text else [c.encode('utf-8') for c in chunks]
+            if kind == 0:
+                w = PR._FileWriter(_SFile(log), True, enc, 'strict')
+            elif kind == 1:
+                w = PR._AsyncFileWriter(proc, _AFile(log), True, None, enc, 'strict')
+            else:
+                w = PR._StreamWriter(proc, _SW(log), True, None, enc, 'strict')
+            for i, d in enumerate(data):
+                w.write(d)
+                if (i == 0 and r0) or (i == 1 and r1):
+                    loop.run(50)
+            if eof:
+                w.write_eof()
+            else:
+                w.close()
+            loop.run(200)
+        finally:
+            PR.asyncio = saved
+        if loop.exceptions or loop.unretrieved():
+            return False
+        want = b''.join(c.encode('utf-8') for c in chunks)
+        got = b''.join(x[1] for x in log if x[0] == 'w')
+        closes = [i for i, x in enumerate(log) if x[0] == 'close']
+        if got != want or len(closes) != 1 or closes[0] != len(log) - 1:
+            return False
+        return all(t.done() for t in proc.cleanup) and not loop.pending()
+
+
+def redirect_readers(kind: int, size: int, bufsize: int, pause_at: int) -> bool:
+    """stdin redirection sources (file, async file): all bytes are fed in
+    order, then EOF exactly once - also when feeding is paused and resumed in
+    the middle."""
+    from vf.stubs import AsyncioShim
+    kind = conc(kind, 0, 1)
+    size = conc(size, 0, 7)
+    bufsize = conc(bufsize, 1, 4)
+    pause_at = conc(pause_at, -1, 3)
+    with notrace():
+        loop = MiniLoop()
+        saved = PR.asyncio
+        PR.asyncio = AsyncioShim(loop)
+        try:
+            proc = _Proc(loop)
+            content = bytes(range(65, 65 + size))
+            log = []
+            if kind == 0:
+                r = PR._FileReader(proc, _SFile(log, content), bufsize, None, None, 'strict')
+            else:
+                r = PR._AsyncFileReader(proc, _AFile(log, content), bufsize, None, None, 'strict')
+            paused = [False]
+            orig = proc.feed_data
+
+            def feed_data(data, datatype):
+                orig(data, datatype)
+                if len([x for x in proc.log if x[0] == 'data']) - 1 == pause_at and not paused[0]:
+                    paused[0] = True
+                    r.pause_reading()
+
+            proc.feed_data = feed_data
+            r.feed()
+            loop.run(100)
+            if paused[0]:
+                r.resume_reading()
+                loop.run(100)
+        finally:
+            PR.asyncio = saved
+        if loop.exceptions or loop.unretrieved():
+            return False
+        got = b''.join(x[1] for x in proc.log if x[0] == 'data')
+        eofs = [i for i, x in enumerate(proc.log) if x[0] == 'eof']
+        return got == content and len(eofs) == 1 and eofs[0] == len(proc.log) - 1
+
+
 OBLIGATIONS = [
     Ob('read_split', read_split,
        sym=dict(c1=R(0, 12), c2=R(0, 12), r1=B, r2=B),
@@ -331,6 +523,16 @@ OBLIGATIONS = [
        functions=[ST.SSHStreamSession.drain, ST.SSHStreamSession.pause_writing, ST.SSHStreamSession.resume_writing,
                   ST.SSHStreamSession.connection_lost, ST.SSHStreamSession._unblock_drain],
        bounds='4 events from {pause_writing, resume_writing, eof_received, connection_lost(exc?), start drain} in any order'),
+    Ob('redirect_writers', redirect_writers,
+       sym=dict(n=R(0, 3), c0=R(0, 3), c1=R(0, 3), c2=R(0, 3), r0=B, r1=B, eof=B),
+       shards=dict(kind=[0, 1, 2], text=[True, False]), timeout=200,
+       functions=[PR._FileWriter.write, PR._AsyncFileWriter._writer, PR._AsyncFileWriter.write, PR._StreamWriter._feed,
+                  PR._StreamWriter.write],
+       bounds='file / async file / stream targets, text or bytes, up to 3 chunks from {ab, empty, c, non-ASCII}, loop running or not between writes, write_eof or close'),
+    Ob('redirect_readers', redirect_readers, sym=dict(kind=R(0, 1), size=R(0, 7), bufsize=R(1, 4), pause_at=R(-1, 3)),
+       shards=dict(kind=[0, 1]), timeout=200,
+       functions=[PR._FileReader.feed, PR._AsyncFileReader._feed],
+       bounds='file / async file sources of 0..7 bytes, buffer size 1..4, feeding paused after the k-th chunk (k in 0..3) or never'),
     Ob('exit_with_output', exit_with_output,
        sym=dict(k0=R(0, 3), k1=R(0, 3), k2=R(0, 3), k3=R(0, 3)), shards=dict(status=[0, 3, 256 + 7]), timeout=150,
        functions=[CH.SSHClientChannel._process_exit_status_request, CH.SSHChannel._process_request,
@@ -346,5 +548,5 @@ MANIFEST = dict(
          'exactly the reference split of the unchunked data (separators: single, multi-byte spanning a cut, tuples of different lengths, regex), with '
          'IncompleteReadError carrying exactly the remainder; drain() never hangs after resume/loss (also after EOF) and fails when the channel is '
          'gone; for all 24 orders of stdout/stderr/exit-status/EOF before CLOSE the exit status is recorded and both outputs are complete.',
-    note='process.py redirection readers/writers and SSHCompletedProcess collection are not covered (file/pipe/socket I/O, outside this family); text '
+    note='of process.py only the file / async-file / stream redirection helpers are covered (stand-in targets); pipes, sockets, process chaining and SSHCompletedProcess collection are not; text '
          'mode decoding is C07; stream lengths <= 12 bytes, <= 3 chunks. Trusted: CrossHair, z3, the loop model, reference splitter in props/C19.py.')
